@@ -280,7 +280,10 @@ class ServerSet(object):
     self._nodes = set()
     for k in list(self._members.keys()):
       member = self._members.pop(k)
-      self._on_leave(member)
+      try:
+        self._on_leave(member)
+      except Exception:
+        self._log.exception('Error in OnLeave callback.')
 
   def _notification_worker(self):
     """'Atomically' raise notifications for join / leave.
